@@ -6,6 +6,6 @@ VARIABLE l
 Init == l = 1
 Next == /\ l <= Len(Trace)
         /\ l' = l + 1
-        /\ LET e == Trace[l]  r == Reasons(e.req, e.rc, e.stream, e.ans) IN
+        /\ LET e == Trace[l]  r == ReasonsX(e.req, e.rc, e.stream, e.ans, e.via = "api") IN
            r = <<>> \/ PrintT(<<"BADLINE", l, r>>)
 =============================================================================
